@@ -32,10 +32,6 @@ func Run(ctx *core.Ctx) {
 		"a raw U+2028/U+2029 inside a JS string is not counted as unsafe (legal since ES2019)")
 	ctx.Trusted = append(ctx.Trusted, "Go decoders in harness/c16/decoders.go (cross-checked against the TLA+ decoders on every M3 line and against node's evaluator / JSON.parse)", "node v20 for the JS runs")
 
-	if ctx.ReplayPath != "" {
-		Replay(ctx)
-		return
-	}
 	real := NewReal()
 	FailsAlone = func(d Dir, c string) bool {
 		out, err := real.RenderOff(d.Text(), data.String(c))
@@ -44,6 +40,10 @@ func Run(ctx *core.Ctx) {
 		}
 		f := Contract(d, core.VStr(c), c, out)
 		return f != "" && f != "unspec"
+	}
+	if ctx.ReplayPath != "" {
+		Replay(ctx)
+		return
 	}
 
 	// ---- M1 (reference model and deviations) runs in the background
